@@ -182,7 +182,7 @@ func nativeValidate(prog *Program, mod, pkg string, results []*HarnessResult, ti
 		}
 		return false
 	}
-	for try := 0; try < 12; try++ {
+	for try := 0; try < 5; try++ {
 		var again []nativeCase
 		for _, r := range results {
 			for i, v := range r.Violations {
@@ -619,7 +619,7 @@ func cmdReplay(args []string) int {
 		return 2
 	}
 	v := &Violation{Kind: rec.Kind, Label: rec.Label}
-	for try := 0; try < 12; try++ {
+	for try := 0; try < 5; try++ {
 		out := nr.run([]nativeCase{{ID: "r", Harness: rec.Harness, Nondet: rec.Nondet, Tier: rec.Tier}}, 6*time.Second)
 		res := out["r"]
 		if res == nil {
